@@ -35,6 +35,11 @@ CHECKS = {
         text="Real LoudScheme/SilentScheme objects run scripted key generation and signing over a simulated network with random delivery policies. The oracle demands: Init gets exactly the sorted party ids of the participants; every hand-over is attributed to the party id of the node it arrived from; every point-to-point message the backend emits results in exactly one transmission, to the participant node that represents the addressed party; a session with two nodes of one party returns an error everywhere; all other sessions complete with exactly-once delivery. Identifier 0 and replicas whose non-participating sibling precedes/follows them in the map are generated on purpose.",
         note="Trusted: harness translation table and recorder. Quick tier keeps ids <= 250 so that C13's subject does not leak in; thorough uses the 16-bit range. Completion is judged with a watchdog and a replay with a 5x deadline.",
         design="2/C06"),
+    "C12": dict(level="exploration", engine="hcore",
+        technique="runtime monitoring of API-call histories on one cluster of real schemes: residue-free reference (every operation's outcome depends on the operation alone), verifPoint holds to make the cleanup/registration windows deterministic, late-replay and foreign-traffic injection, silent-mode re-use sub-oracle with known-finding signatures",
+        text="PRNG histories (8..40 operations, 3..5 nodes, 2..4 topics; loud with real disc.Member, barrier and silent mode) of successful, too-few-callers and cancelled KeyGen/Sign calls, cancellation with the continuation parked at a verif point, Sign re-issued the moment the previous one returned (continuation held after the result hand-off), two topics at once, duplicate Sign on a live topic (first session must survive), replay of a finished session's whole traffic (no hand-over, no transmission may result), traffic of a member outside the session and of a non-member during a live session (exactly-once hand-over must still hold). A 'Programming error' panic kills the child and is reported by the parent.",
+        note="Trusted: harness recorder/network; silent-mode histories use fresh topics, re-use in silent mode is decided by the c12silent unit whose two failures are recorded as known findings (no small sound repair). Deadlines are watchdogs: a history that hits one is replayed with 5x deadlines before being judged.",
+        design="2/C12"),
 }
 
 NOT_YET = {}
